@@ -863,6 +863,10 @@ func (e *Env) field(v Value, name string, x ast.Expr) Value {
 	if iv, ok := v.(*IfaceV); ok && iv.Val != nil {
 		return e.field(iv.Val, name, x)
 	}
+	if _, isNil := v.(nilMarker); isNil {
+		// lastArg / lastResult found no matching call on this path
+		return e.fail("no-event: %s", exprString(x))
+	}
 	sv, ok := v.(*StructV)
 	if !ok {
 		return e.fail("selector .%s on non-struct in %s", name, exprString(x))
